@@ -60,6 +60,23 @@ func (x *Evaluator) evalCallR(call *ssa.Call, idx int, e *env, c *evalCtx, recvO
 	if isErrorType(resultType(call, idx)) {
 		return OpaqueV{"error"} // error values carry no template; never inline for them
 	}
+	// an argument that is one of several written-out lists: the call is evaluated for each
+	if x.W.IsProduct(pkgOf(callee)) && callee.Blocks != nil && x.argOv == nil {
+		for ai, a := range cc.Args {
+			if _, isSlice := a.Type().Underlying().(*types.Slice); !isSlice {
+				continue
+			}
+			if opts, ok := listChoice(x.evalC(a, e, c)); ok {
+				var outs []Val
+				for _, o := range opts {
+					x.argOv = map[int]Val{ai: o}
+					outs = append(outs, x.evalCallR(call, idx, e, c, recvOv))
+				}
+				x.argOv = nil
+				return joinChoice(outs)
+			}
+		}
+	}
 	if v, ok := x.evalKnown(callee, call, idx, e, c); ok {
 		return v
 	}
@@ -73,6 +90,12 @@ func (x *Evaluator) evalCallR(call *ssa.Call, idx int, e *env, c *evalCtx, recvO
 			rv = x.evalC(cc.Args[0], e, c)
 		}
 		if o, ok := rv.(OpaqueV); ok && o.Origin != "recv" && isAccessor(callee) {
+			return x.symbolic(resultType(call, idx), o.Origin+"."+callee.Name()+"()")
+		}
+		// a child of a node of another package, handed out by a method that decides which (the
+		// end index of a subscript is its start index where none was written): to this package
+		// it is the child of that name
+		if o, ok := rv.(OpaqueV); ok && o.Origin != "recv" && x.Pkg != nil && pkgOf(callee) != x.Pkg.Pkg && len(callee.Params) == 1 && returnsNode(callee) {
 			return x.symbolic(resultType(call, idx), o.Origin+"."+callee.Name()+"()")
 		}
 	}
@@ -159,6 +182,10 @@ func (x *Evaluator) bindCall(callee *ssa.Function, args []ssa.Value, e *env, c *
 		if i == 0 && x.recvOv != nil {
 			v = x.recvOv
 			x.recvOv = nil
+		}
+		if ov, ok := x.argOv[i]; ok {
+			v = ov
+			delete(x.argOv, i)
 		}
 		if l, ok := v.(ListV); ok && l.IsFinite && l.ID == 0 {
 			x.nextList++
@@ -447,6 +474,16 @@ func (x *Evaluator) evalBuiltin(b *ssa.Builtin, call *ssa.Call, e *env, c *evalC
 			return IntV{Origin: "len(" + v.Origin + ")", LenLst: &lv}
 		case OpaqueV:
 			return IntV{Origin: "len(" + v.Origin + ")"}
+		case ChoiceV:
+			if opts, ok := listChoice(v); ok {
+				n := len(opts[0].Finite)
+				for _, o := range opts {
+					if len(o.Finite) != n {
+						return IntV{Origin: "len(choice)"}
+					}
+				}
+				return intConst(int64(n))
+			}
 		}
 		return IntV{Origin: "len(?)"}
 	case "append":
@@ -454,6 +491,15 @@ func (x *Evaluator) evalBuiltin(b *ssa.Builtin, call *ssa.Call, e *env, c *evalC
 		var add Val
 		if len(args) > 1 {
 			add = x.evalC(args[1], e, c)
+		}
+		if opts, ok := listChoice(base); ok {
+			if al, ok := add.(ListV); ok && al.IsFinite {
+				var outs []Val
+				for _, o := range opts {
+					outs = append(outs, ListV{Finite: append(append([]Val{}, o.Finite...), al.Finite...), IsFinite: true, Origin: o.Origin})
+				}
+				return ChoiceV{Opts: outs}
+			}
 		}
 		bl, bok := base.(ListV)
 		al, aok := add.(ListV)
